@@ -296,7 +296,7 @@ def adapter_and_factory_records(seed):
         ("adapt-elementwise", lambda: einx.numpy.adapt_numpylike_elementwise(elw)("a b, b -> b a", x, np.ones(3), graph=True), [x, np.ones(3)]),
         ("scalar", lambda: einx.add("a b, ", x, 1.5, graph=True), [x, 1.5]),
     ]
-    bad = []; n = 0
+    bad = []; n = 0; kept = []
     for name, f, args in cases:
         with interp.Capture() as cap:
             try:
@@ -305,8 +305,14 @@ def adapter_and_factory_records(seed):
                 continue
         if not cap.records: continue
         n += 1
+        kept.append((name, cap.records[-1], args))
         msg, skipped = check_record(cap.records[-1], args)
         if msg: bad.append(({"kind": "special", "case": name}, f"{name}: {msg}", {"special": name}))
+    # every compiled function once more AFTER all the others have been compiled: a function must keep computing its own graph
+    for name, rec, args in kept:
+        n += 1
+        msg, skipped = check_record(rec, args)
+        if msg: bad.append(({"kind": "special", "case": name + " (after later compilations)"}, f"{name}, re-checked after other graphs with constants were compiled: {msg}", {"special": name}))
     return n, bad
 
 
